@@ -1,1 +1,357 @@
-//! Stateful executors (mutation histories, walks with deletions): filled in below.
+//! Stateful executor: a history of API operations applied to one `ParsedPacket`, one ndjson event
+//! per operation with the bytes before and after, every public field of the object, and whatever
+//! the operation returned.  Cursor operations are logged sub-step by sub-step (bytes, view and the
+//! cursor's own accessors after each).  The driver does not interpret anything.
+
+use crate::exec::view_json;
+use crate::util::*;
+use dnssector::*;
+use serde_json::Value;
+
+fn err_text(e: &Error) -> String {
+    e.to_string()
+}
+
+fn section_of(s: &str) -> Section {
+    match s {
+        "Q" => Section::Question,
+        "AN" => Section::Answer,
+        "NS" => Section::NameServers,
+        _ => Section::Additional,
+    }
+}
+
+/// observation of a cursor: tombstone flag, offsets and the accessors that exist for every section
+fn cursor_obs<T: DNSIterable + TypedIterable>(it: &T, ttl: Option<u32>) -> String {
+    if it.is_tombstone() {
+        return "{\"tomb\":true,\"off\":0,\"name_end\":0,\"next\":0,\"raw\":[],\"name\":[],\"type\":0,\"class\":0,\"ttl\":[]}".to_string();
+    }
+    let mut raw = vec![];
+    it.copy_raw_name(&mut raw);
+    format!(
+        "{{\"tomb\":false,\"off\":{},\"name_end\":{},\"next\":{},\"raw\":{},\"name\":{},\"type\":{},\"class\":{},\"ttl\":{}}}",
+        it.offset().unwrap(),
+        it.raw().name_end,
+        it.offset_next(),
+        jbytes(&raw),
+        jbytes(&it.name()),
+        it.rr_type(),
+        it.rr_class(),
+        match ttl {
+            Some(t) => ju32(t),
+            None => "[]".into(),
+        }
+    )
+}
+
+enum Cur<'a> {
+    Q(QuestionIterator<'a>),
+    R(ResponseIterator<'a>),
+}
+
+impl<'a> Cur<'a> {
+    fn obs(&self) -> String {
+        match self {
+            Cur::Q(i) => cursor_obs(i, None),
+            Cur::R(i) => {
+                let ttl = if i.is_tombstone() { None } else { Some(i.rr_ttl()) };
+                cursor_obs(i, ttl)
+            }
+        }
+    }
+    fn pp(&self) -> &ParsedPacket {
+        match self {
+            Cur::Q(i) => i.parsed_packet(),
+            Cur::R(i) => i.parsed_packet(),
+        }
+    }
+}
+
+fn res_of(r: Result<(), Error>) -> (String, String) {
+    match r {
+        Ok(()) => ("ok".into(), String::new()),
+        Err(e) => ("err".into(), err_text(&e)),
+    }
+}
+
+/// Runs one cursor script.  Returns (json fragment, panicked).
+fn cursor_script(pp: &mut ParsedPacket, o: &Value) -> (String, bool) {
+    let sec = o["sec"].as_str().unwrap_or("AN").to_string();
+    let incl = o["incl"].as_bool().unwrap_or(false);
+    let adv = vusize(&o["adv"]);
+    let subs: Vec<Value> = o["subs"].as_array().cloned().unwrap_or_default();
+    let mut out = String::new();
+    let mut panicked = false;
+    // the whole script runs under one guard: the cursor borrows the packet mutably
+    let mut log: Vec<String> = vec![];
+    let none_obs = "{\"tomb\":true,\"off\":0,\"name_end\":0,\"next\":0,\"raw\":[],\"name\":[],\"type\":0,\"class\":0,\"ttl\":[]}";
+    let mut first = String::from(none_obs);
+    let mut has_first = false;
+    let r = guarded(|| {
+        let start: Option<Cur> = match sec.as_str() {
+            "Q" => pp.into_iter_question().map(Cur::Q),
+            "AN" => pp.into_iter_answer().map(Cur::R),
+            "NS" => pp.into_iter_nameservers().map(Cur::R),
+            _ => {
+                if incl {
+                    pp.into_iter_additional_including_opt().map(Cur::R)
+                } else {
+                    pp.into_iter_additional().map(Cur::R)
+                }
+            }
+        };
+        let mut cur = start;
+        for _ in 0..adv {
+            cur = match cur {
+                Some(Cur::Q(i)) => i.next().map(Cur::Q),
+                Some(Cur::R(i)) => (if incl { i.next_including_opt() } else { i.next() }).map(Cur::R),
+                None => None,
+            };
+        }
+        let mut cur = match cur {
+            None => return,
+            Some(c) => c,
+        };
+        first = cur.obs();
+        has_first = true;
+        for s in subs.iter() {
+            let name = s["s"].as_str().unwrap_or("");
+            let arg = vbytes(&s["arg"]);
+            let (res, e): (String, String) = match name {
+                "set_raw_name" => match &mut cur {
+                    Cur::Q(i) => res_of(i.set_raw_name(&arg)),
+                    Cur::R(i) => res_of(i.set_raw_name(&arg)),
+                },
+                "delete" => match &mut cur {
+                    Cur::Q(i) => res_of(i.delete()),
+                    Cur::R(i) => res_of(i.delete()),
+                },
+                "uncompress" => match &mut cur {
+                    Cur::Q(i) => res_of(i.uncompress()),
+                    Cur::R(i) => res_of(i.uncompress()),
+                },
+                "set_ttl" => match &mut cur {
+                    Cur::Q(_) => ("na".into(), String::new()),
+                    Cur::R(i) => {
+                        if i.is_tombstone() {
+                            ("na".into(), String::new())
+                        } else {
+                            let t = u32::from_be_bytes([arg[0], arg[1], arg[2], arg[3]]);
+                            i.set_rr_ttl(t);
+                            ("ok".into(), String::new())
+                        }
+                    }
+                },
+                "set_ip" => match &mut cur {
+                    Cur::Q(_) => ("na".into(), String::new()),
+                    Cur::R(i) => {
+                        if i.is_tombstone() {
+                            ("na".into(), String::new())
+                        } else {
+                            let ip: std::net::IpAddr = if arg.len() == 4 {
+                                std::net::IpAddr::from([arg[0], arg[1], arg[2], arg[3]])
+                            } else {
+                                let mut a = [0u8; 16];
+                                a.copy_from_slice(&arg[..16]);
+                                std::net::IpAddr::from(a)
+                            };
+                            res_of(i.set_rr_ip(&ip))
+                        }
+                    }
+                },
+                "next" => {
+                    // advancing consumes the cursor; `end` when the section is exhausted
+                    let nxt = match cur {
+                        Cur::Q(i) => i.next().map(Cur::Q),
+                        Cur::R(i) => (if incl { i.next_including_opt() } else { i.next() }).map(Cur::R),
+                    };
+                    match nxt {
+                        Some(c) => {
+                            cur = c;
+                            ("ok".into(), String::new())
+                        }
+                        None => {
+                            log.push(format!("{{\"s\":\"next\",\"arg\":[],\"res\":\"end\",\"e\":\"\",\"bytes\":[],\"view\":{{}},\"obs\":{{}}}}"));
+                            return;
+                        }
+                    }
+                }
+                _ => ("na".into(), String::new()),
+            };
+            log.push(format!(
+                "{{\"s\":{},\"arg\":{},\"res\":\"{}\",\"e\":{},\"bytes\":{},\"view\":{},\"obs\":{}}}",
+                jstr(name),
+                jbytes(&arg),
+                res,
+                jstr(&e),
+                jbytes(cur.pp().packet()),
+                view_json(cur.pp()),
+                cur.obs()
+            ));
+        }
+    });
+    if r.is_err() {
+        panicked = true;
+    }
+    out += &format!(
+        "\"has_first\":{},\"first\":{},\"subs\":[{}],\"completed\":{}",
+        has_first,
+        first,
+        log.join(","),
+        subs_completed(&log, &subs, panicked)
+    );
+    (out, panicked)
+}
+
+fn subs_completed(log: &[String], subs: &[Value], panicked: bool) -> bool {
+    !panicked && (log.len() == subs.len() || log.last().map(|l| l.contains("\"res\":\"end\"")).unwrap_or(false) || log.is_empty())
+}
+
+fn opt_q(x: Option<(Vec<u8>, u16, u16)>) -> String {
+    match x {
+        None => "[]".into(),
+        Some((n, t, c)) => format!("[{{\"n\":{},\"t\":{},\"c\":{}}}]", jbytes(&n), t, c),
+    }
+}
+
+/// One history: returns the event lines (one per operation).
+pub fn run_history(v: &Value, hid: u64) -> Vec<String> {
+    let mut lines = vec![];
+    let mut pp = if v["synth"].is_string() {
+        // synthesised packet: ParsedPacket::empty() (+ question through synth::gen::query)
+        let r = guarded(|| match v["synth"].as_str().unwrap() {
+            "empty" => Ok(ParsedPacket::empty()),
+            name => dnssector::synth::r#gen::query(name.as_bytes(), Type::AAAA, Class::IN),
+        });
+        match r {
+            Ok(Ok(pp)) => pp,
+            _ => {
+                lines.push(format!("{{\"k\":\"step\",\"h\":{},\"i\":0,\"res\":\"panic\",\"o\":{{\"op\":\"synth\"}},\"pre\":[],\"post\":[],\"mc0\":false,\"view\":{{}},\"reparse\":\"\"}}", hid));
+                return lines;
+            }
+        }
+    } else {
+        match guarded(|| DNSSector::new(vbytes(&v["pkt"])).and_then(|d| d.parse())) {
+            Ok(Ok(pp)) => pp,
+            _ => return lines,
+        }
+    };
+    let ops: Vec<Value> = v["ops"].as_array().cloned().unwrap_or_default();
+    for (i, o) in ops.iter().enumerate() {
+        // after a panic inside the library the object may be unusable (e.g. left without its packet):
+        // the step that caused it has been reported, the history ends here
+        let pre = match guarded(|| pp.packet().to_vec()) {
+            Ok(p) => p,
+            Err(()) => break,
+        };
+        let mc0 = pp.maybe_compressed;
+        let cached0 = pp.cached.is_some();
+        let op = o["op"].as_str().unwrap_or("");
+        let mut extra = String::new();
+        let mut panicked = false;
+        let r = guarded(|| -> (String, String) {
+            match op {
+                "set_tid" => {
+                    pp.set_tid(vusize(&o["v"]) as u16);
+                    ("ok".into(), String::new())
+                }
+                "set_flags" => {
+                    pp.set_flags(((vusize(&o["hi"]) as u32) << 16) | vusize(&o["lo"]) as u32);
+                    ("ok".into(), String::new())
+                }
+                "set_rcode" => {
+                    pp.set_rcode(vusize(&o["v"]) as u8);
+                    ("ok".into(), String::new())
+                }
+                "set_opcode" => {
+                    pp.set_opcode(vusize(&o["v"]) as u8);
+                    ("ok".into(), String::new())
+                }
+                "set_response" => {
+                    pp.set_response(o["v"].as_bool().unwrap_or(false));
+                    ("ok".into(), String::new())
+                }
+                "read_question" => {
+                    let qq1 = pp.qtype_qclass();
+                    let q = pp.question();
+                    let q0 = pp.question_raw0().map(|x| (x.0.to_vec(), x.1, x.2));
+                    let q1 = pp.question_raw().map(|x| (x.0.to_vec(), x.1, x.2));
+                    let q2 = pp.question();
+                    let qq2 = pp.qtype_qclass();
+                    extra = format!(
+                        ",\"got\":{{\"text\":{},\"raw0\":{},\"raw\":{},\"text2\":{},\"qq1\":{},\"qq2\":{}}}",
+                        opt_q(q),
+                        opt_q(q0),
+                        opt_q(q1),
+                        opt_q(q2),
+                        match qq1 {
+                            None => "[]".into(),
+                            Some((a, b)) => format!("[{},{}]", a, b),
+                        },
+                        match qq2 {
+                            None => "[]".into(),
+                            Some((a, b)) => format!("[{},{}]", a, b),
+                        }
+                    );
+                    ("ok".into(), String::new())
+                }
+                "recompute" => res_of(pp.recompute()),
+                "insert" => res_of(pp.insert_rr_from_string(section_of(o["sec"].as_str().unwrap_or("AN")), o["text"].as_str().unwrap_or(""))),
+                "insert_q" => {
+                    let name = vbytes(&o["name"]);
+                    res_of(
+                        dnssector::synth::r#gen::RR::new_question(&name, Type::AAAA, Class::IN)
+                            .and_then(|rr| pp.insert_rr(Section::Question, rr)),
+                    )
+                }
+                "rename" => res_of(pp.rename_with_raw_names(&vbytes(&o["target"]), &vbytes(&o["source"]), o["suffix"].as_bool().unwrap_or(false))),
+                "cursor" => {
+                    let (frag, p) = cursor_script(&mut pp, o);
+                    extra = format!(",{}", frag);
+                    if p {
+                        panic!("cursor script panicked");
+                    }
+                    ("ok".into(), String::new())
+                }
+                _ => ("na".into(), String::new()),
+            }
+        });
+        let (res, e) = match r {
+            Ok(x) => x,
+            Err(()) => {
+                panicked = true;
+                ("panic".to_string(), String::new())
+            }
+        };
+        // the object may be poisoned after a panic: reading it is guarded too
+        let post = guarded(|| (pp.packet().to_vec(), view_json(&pp)));
+        let (postb, view) = match post {
+            Ok(x) => x,
+            Err(()) => (vec![], "{\"poisoned\":true}".to_string()),
+        };
+        let reparse = match guarded(|| DNSSector::new(postb.clone()).and_then(|d| d.parse()).map(|p| view_json(&p))) {
+            Ok(Ok(v)) => format!("{{\"res\":\"ok\",\"view\":{}}}", v),
+            Ok(Err(_)) => "{\"res\":\"err\",\"view\":{}}".to_string(),
+            Err(()) => "{\"res\":\"panic\",\"view\":{}}".to_string(),
+        };
+        lines.push(format!(
+            "{{\"k\":\"step\",\"h\":{},\"i\":{},\"pre\":{},\"mc0\":{},\"cached0\":{},\"o\":{},\"res\":\"{}\",\"e\":{}{},\"post\":{},\"view\":{},\"reparse\":{}}}",
+            hid,
+            i,
+            jbytes(&pre),
+            mc0,
+            cached0,
+            o,
+            res,
+            jstr(&e),
+            extra,
+            jbytes(&postb),
+            view,
+            reparse
+        ));
+        if panicked {
+            break;
+        }
+    }
+    lines
+}
